@@ -160,6 +160,8 @@ def build_upload(sim: Sim, spec: dict | None, real=None):
             if spec.get("gate"):
                 ev = sim.gate()
                 await sim.wait_gate(ev)
+                # what the handler would store if it reads the content only now (after having awaited something)
+                sim.log.append(("upload-content-late", sim.loop.time(), bytes(request.content)))
             if kind == "real":
                 return await real.handle_upload(request)
             if kind == "raise":
